@@ -1,5 +1,6 @@
 """C15 - out-of-range or mis-sized values are rejected (CreationError, a ValueError), never wrapped or truncated."""
 import io
+import sys
 
 from hypothesis import strategies as st
 
@@ -507,12 +508,53 @@ def enum_limits(tier):
 
 CLASSES4 = ['Bits', 'BitArray', 'ConstBitStream', 'BitStream']
 
+# ------------------------------------------------------------------------------------------- bare-name assignment: the object's own length is the stated length
+
+BARE_NAMES = ['uint', 'int', 'u', 'i', 'float', 'floatbe', 'floatle', 'floatne', 'f']
+BARE_VALUES = {'uint': [0, 1], 'int': [0, -1], 'float': [0.5, -2.0], 'floatle': [0.5, -2.0]}
+
+
+def enum_bare(tier):
+    widths = list(range(0, 137)) if tier != 'quick' else list(range(0, 70)) + [72, 79, 80, 96, 127, 128, 129, 136]
+    for name in BARE_NAMES:
+        for n in widths:
+            for k, cls in enumerate(MUTABLE):
+                yield {'name': name, 'n': n, 'cls': cls, 'vi': (n + k) % 2}
+
+
+def run_bare(case):
+    """x.float = v / x.uint = v on an existing n-bit object: the value takes the object's length; a length the type does not allow is refused and x keeps its bits"""
+    bs = bitstring_module()
+    name, n = case['name'], case['n']
+    c = canon(name)
+    key = 'floatle' if (c == 'floatle' or (c == 'floatne' and sys.byteorder == 'little')) else ('float' if c in ('float', 'floatbe', 'floatne') else c)
+    v = BARE_VALUES[key][case['vi']]
+    before = format((0x5a5a5a5a5a5a5a5a5a5a5a5a5a5a5a5a5a5a >> 3) & ((1 << n) - 1), f'0{n}b') if n else ''
+    x = mk(case['cls'], before)
+    legal = codecs.valid_length(key, n)
+    if legal and key in ('uint', 'int'):
+        lo, hi = codecs.int_range(key, n)
+        legal = lo <= v <= hi
+    r = attempt(setattr, x, name, v)
+    if not legal:
+        require(is_raised(r, ValueError), 'assignment through a bare type name on an object whose length the type does not allow must raise CreationError (ValueError)',
+                got=r if is_raised(r) else f'accepted, now {len(x)} bits', case=case)
+        require(x.bin == before, 'a rejected property assignment changed the object', got=x.bin[:80], before=before[:80], case=case)
+    else:
+        require(not is_raised(r), 'assignment of a representable value through a bare type name was rejected', got=r, case=case)
+        exp = codecs.encode(key, v, n)
+        require(x.bin == exp, 'assignment through a bare type name does not give the value at the length of the object', got=x.bin[:80], expected=exp[:80], case=case)
+    return {'nt': n not in (16, 32, 64) or key in ('uint', 'int'), 'labels': [name, 'reject' if not legal else 'ok']}
+
+
 SUBCHECKS = [
     Sub('C15.bool_values', run_bool, enum=enum_bool,
         enum_exhaustive_note='11 integers (0, 1, True, False and 7 that do not fit one bit) x 16 routes (constructor keyword, token, pack x2, Dtype.build, property assignment, Array init from list / tuple / '
                              'iterator, extend from list / generator, append, insert, item, slice and extended slice assignment) x 3 positions among good values'),
     Sub('C15.limits_grid', run_int, enum=enum_limits,
         enum_exhaustive_note='every integer dtype name x every width 1..130 (uint/int) or every whole-byte width 8..136 (endian forms) x {lo-2..lo+1, hi-1..hi+2}; one rotating route per cell (quick) / all 17 routes (thorough)'),
+    Sub('C15.assign_bare_name', run_bare, enum=enum_bare,
+        enum_exhaustive_note='uint/int/u/i/float/floatbe/floatle/floatne/f x every object length 0..136 (quick: 0..69 and 8 larger) x BitArray/BitStream, two values alternating'),
     Sub('C15.int_ranges', run_int, strategy=int_case, examples={'quick': 20000, 'thorough': 300000}, ambient=('bytealigned',)),
     Sub('C15.length_validity', run_length, strategy=length_case, examples={'quick': 10000, 'thorough': 150000}, ambient=('bytealigned',)),
     Sub('C15.text_digits', run_text, strategy=text_case, examples={'quick': 8000, 'thorough': 100000}, ambient=('bytealigned',)),
